@@ -134,6 +134,31 @@ R.contract(
     modifies=PI_GHOST + ["self._update_time", "self._current"],
 )
 R.contract(
+    PI + "current_value", params={}, returns="str",
+    # deliberately NO assumption on the position counter: the spinner thread and the caller share it without a lock, so a
+    # frame may be built in ANY state another thread's advance() passes through -- the value shown must be one of the
+    # indicator values, and building it must not fail, whatever the counter holds
+    requires=["len(self._values) >= 1"],
+    ensures=["result in self._values"],
+    modifies=[],
+    note="total on every value of the shared position counter (sequential reduction of the interleaving clause: no "
+         "intermediate state of advance() can make a frame unbuildable)",
+).is_property = True
+R.shape("ProgressIndicator", _start_time="real?")
+R.contract(
+    PI + "start", params={"message": "str"},
+    requires=["self._interval >= 0", ioc.VALID.replace("self.", "self._io.")],
+    ensures=[
+        "self._started and self._message == message and self._current == 0",
+        # every start arms the timer one interval after the moment of THIS start (round() moves a reading by at most half a
+        # millisecond), so the first redraw by advance() is an interval away however often the indicator was used before
+        "self._update_time is not None and self._update_time >= old(now()) * 1000 - 1 + self._interval",
+        "implies(not self._io._quiet, self.g_frames == old(self.g_frames) + 1)",
+    ],
+    raises={"RuntimeError": "self._started"},
+    modifies=PI_GHOST + ["self._message", "self._started", "self._start_time", "self._update_time", "self._current"],
+)
+R.contract(
     PI + "_overwrite", params={"message": "str"},
     requires=[ioc.VALID.replace("self.", "self._io."), "self._io._indent == 0"],
     ensures=[
